@@ -148,9 +148,9 @@ def cases(shard, nshards, seed, tier):
     from vmon import gen3d
 
     for fn in [f for f in gen3d.corpus_files() if f.endswith(("488d.pdb", "1ehz-assembly-1.cif", "4qln.cif", "1E7K_1_C.cif", "4WTI_1_T-P.cif", "8btk_B7.cif"))]:
-        for k, ops in enumerate(([], [], [{"op": "thin-res", "seed": f"{seed}:c16", "frac": 0.12}], [{"op": "thin-res", "seed": f"{seed}:c16b", "frac": 0.2}], [{"op": "reverse-res"}], [{"op": "split-chain", "tail": 3}])):
+        for variant, ops in enumerate(([], [], [{"op": "thin-res", "seed": f"{seed}:c16", "frac": 0.12}], [{"op": "thin-res", "seed": f"{seed}:c16b", "frac": 0.2}], [{"op": "reverse-res"}], [{"op": "split-chain", "tail": 3}])):
             if mine():
-                yield {"family": "from-3d", "file": fn, "ops": ops, "gaps": k != 0}
+                yield {"family": "from-3d", "file": fn, "ops": ops, "gaps": variant != 0}
         # the same through the external-tool adapter (an FR3D listing of the structure's own pairs)
         for gaps in (False, True):
             if mine():
@@ -238,7 +238,8 @@ def _from_3d(case, rec):
     for t in texts:
         lines = [l for l in t.split("\n") if l and not l.startswith(">")]
         sq, st = "".join(lines[0::2]), "".join(lines[1::2])
-        if sq != seq or len(st) != len(seq):
+        if sq != seq or len(st) != len(seq) or any(len(a) != len(b_) for a, b_ in zip(lines[0::2], lines[1::2])) or len(lines) % 2:
+            # (every strand's structure line is as long as its sequence line)
             bad = {"text": t[:300], "bpseq-sequence": seq[:150]}
         joined.append(st)
     rec.check("mapping.members-have-the-bpseq-sequence", bad is None, lambda: det(bad))
